@@ -228,5 +228,107 @@ impl VpCache {
     }
 }
 
+// ---- the lifetime of a positive entry (ResponseCache::clamp_positive_ttls, from the bounds lookup to the end of the fn) ----
+// C15: "never returns an entry more than L seconds after its insertion, where L is the smallest TTL among the entry's
+// records of the queried type (or CNAME), clamped to the configured bounds for that query type". The iterator pipeline
+// `message.all_sections().filter(f).map(g).min()` goes through ONE shim specified by the two closures' own contracts;
+// both closure bodies are the repository's text.
+impl vstd::std_specs::cmp::PartialEqSpecImpl for RecordType { open spec fn obeys_eq_spec() -> bool { true } open spec fn eq_spec(&self, o: &RecordType) -> bool { self.0 == o.0 } }
+impl PartialEq for RecordType { fn eq(&self, o: &RecordType) -> (r: bool) { self.0 == o.0 } }
+impl RecordType { pub const CNAME: RecordType = RecordType(5); }
+pub struct VpMessage { pub answers: Vec<VpRecord>, pub authorities: Vec<VpRecord>, pub additionals: Vec<VpRecord> }
+impl VpMessage {
+    // Message::all_sections(): answers, then authorities, then additionals
+    pub open spec fn all(&self) -> Seq<VpRecord> { self.answers@ + self.authorities@ + self.additionals@ }
+}
+pub struct VpRange { pub lo: Duration, pub hi: Duration }
+impl VpRange { pub fn into_inner(self) -> (r: (Duration, Duration)) ensures r == (self.lo, self.hi) { (self.lo, self.hi) } }
+pub uninterp spec fn resp_bounds(c: VpTtlCfg, t: RecordType) -> (Duration, Duration);
+impl VpTtlCfg {
+    // TtlConfig::positive_response_ttl_bounds (kernel `positive_bounds` above): the configured range for a query type
+    #[verifier::external_body] pub fn positive_response_ttl_bounds(&self, t: RecordType) -> (r: VpRange) ensures (r.lo, r.hi) == resp_bounds(*self, t) { unimplemented!() }
+}
+// `message.all_sections().filter(f).map(g).min()`: the least g-value among the records f keeps; None iff f keeps none.
+// bs[i] / ds[i]: what f answered for record i and, where f kept it, what g made of it
+pub open spec fn pipeline_outcome<F: Fn(&&VpRecord) -> bool, G: Fn(&VpRecord) -> Duration>(all: Seq<VpRecord>, f: F, g: G, bs: Seq<bool>, ds: Seq<Duration>, r: Option<Duration>) -> bool {
+    &&& bs.len() == all.len() && ds.len() == all.len()
+    &&& forall|i: int| 0 <= i < all.len() ==> call_ensures(f, (&&all[i],), #[trigger] bs[i])
+    &&& forall|i: int| 0 <= i < all.len() && bs[i] ==> call_ensures(g, (&all[i],), #[trigger] ds[i])
+    &&& match r {
+            None => forall|i: int| 0 <= i < all.len() ==> !#[trigger] bs[i],
+            Some(d) => (exists|i: int| 0 <= i < all.len() && #[trigger] bs[i] && ds[i] == d)
+                && (forall|j: int| 0 <= j < all.len() && #[trigger] bs[j] ==> d.ns <= ds[j].ns),
+        }
+}
+// the records an iterator expression ranges over
+#[verifier::external_body] pub struct VpRecs { vp: u64 }
+impl VpRecs { pub uninterp spec fn view(&self) -> Seq<VpRecord>; }
+#[verifier::external_body] pub fn vp_all_sections(m: &VpMessage) -> (r: VpRecs) ensures r@ == m.all() { unimplemented!() }
+#[verifier::external_body] pub fn vp_section(v: &Vec<VpRecord>) -> (r: VpRecs) ensures r@ == v@ { unimplemented!() }
+#[verifier::external_body]
+pub fn vp_filter_map_min<F: Fn(&&VpRecord) -> bool, G: Fn(&VpRecord) -> Duration>(c: &VpRecs, f: F, g: G) -> (r: Option<Duration>)
+    requires forall|i: int| 0 <= i < c@.len() ==> call_requires(f, (&&#[trigger] c@[i],)) && call_requires(g, (&c@[i],)),
+    ensures exists|bs: Seq<bool>, ds: Seq<Duration>| #[trigger] pipeline_outcome(c@, f, g, bs, ds, r)
+{ unimplemented!() }
+// what the pipeline's outcome means once the two closures are known by their contracts
+pub proof fn lemma_pipeline<F: Fn(&&VpRecord) -> bool, G: Fn(&VpRecord) -> Duration>(all: Seq<VpRecord>, f: F, g: G, r: Option<Duration>, q: RecordType)
+    requires exists|bs: Seq<bool>, ds: Seq<Duration>| #[trigger] pipeline_outcome(all, f, g, bs, ds, r),
+        forall|x: &&VpRecord, b: bool| #[trigger] call_ensures(f, (x,), b) ==> b == counts_for(**x, q),
+        forall|x: &VpRecord, d: Duration| #[trigger] call_ensures(g, (x,), d) ==> d.ns == x.ttl as u128 * 1_000_000_000,
+    ensures match r {
+        None => forall|i: int| 0 <= i < all.len() ==> !counts_for(#[trigger] all[i], q),
+        Some(d) => (exists|i: int| 0 <= i < all.len() && counts_for(#[trigger] all[i], q) && d.ns == all[i].ttl as u128 * 1_000_000_000)
+            && (forall|j: int| 0 <= j < all.len() && counts_for(#[trigger] all[j], q) ==> d.ns <= all[j].ttl as u128 * 1_000_000_000),
+    }
+{
+    let (bs, ds) = choose|bs: Seq<bool>, ds: Seq<Duration>| #[trigger] pipeline_outcome(all, f, g, bs, ds, r);
+    assert forall|i: int| 0 <= i < all.len() implies bs[i] == counts_for(#[trigger] all[i], q) by {
+        assert(call_ensures(f, (&&all[i],), bs[i]));
+    }
+    assert forall|i: int| 0 <= i < all.len() && bs[i] implies (#[trigger] ds[i]).ns == all[i].ttl as u128 * 1_000_000_000 by {
+        assert(call_ensures(g, (&all[i],), ds[i]));
+    }
+    match r {
+        None => { assert forall|i: int| 0 <= i < all.len() implies !counts_for(#[trigger] all[i], q) by { assert(!bs[i]); } }
+        Some(d) => {
+            let i0 = choose|i: int| 0 <= i < all.len() && #[trigger] bs[i] && ds[i] == d;
+            assert(counts_for(all[i0], q) && d.ns == all[i0].ttl as u128 * 1_000_000_000);
+            assert forall|j: int| 0 <= j < all.len() && counts_for(#[trigger] all[j], q) implies d.ns <= all[j].ttl as u128 * 1_000_000_000 by { assert(bs[j]); }
+        }
+    }
+}
+pub open spec fn counts_for(r: VpRecord, q: RecordType) -> bool { r.rtype.0 == q.0 || r.rtype.0 == 5 }
+pub open spec fn clamp_ns(v: int, lo: u128, hi: u128) -> int { if v < lo { lo as int } else if v > hi { hi as int } else { v } }
+impl VpCache {
+    fn positive_lifetime(&self, query_type: RecordType, message: &VpMessage) -> (r: Duration)
+        requires resp_bounds(self.ttl_config, query_type).0.ns <= resp_bounds(self.ttl_config, query_type).1.ns,   // configuration precondition (Ord::clamp panics otherwise)
+        ensures
+            // within the bounds configured for THIS query type
+            resp_bounds(self.ttl_config, query_type).0.ns <= r.ns <= resp_bounds(self.ttl_config, query_type).1.ns,
+            // never longer than the (clamped) TTL of ANY record of the queried type or CNAME, in any section
+            forall|i: int| 0 <= i < message.all().len() && counts_for(#[trigger] message.all()[i], query_type) ==>
+                r.ns <= clamp_ns(message.all()[i].ttl as u128 * 1_000_000_000, resp_bounds(self.ttl_config, query_type).0.ns, resp_bounds(self.ttl_config, query_type).1.ns),
+            // and it IS the clamped TTL of one of them; records of other types do not shorten it
+            (exists|i: int| 0 <= i < message.all().len() && counts_for(#[trigger] message.all()[i], query_type)) ==>
+                exists|i: int| 0 <= i < message.all().len() && counts_for(#[trigger] message.all()[i], query_type)
+                    && r.ns == clamp_ns(message.all()[i].ttl as u128 * 1_000_000_000, resp_bounds(self.ttl_config, query_type).0.ns, resp_bounds(self.ttl_config, query_type).1.ns),
+    {
+//%expr crates/resolver/src/cache.rs :: impl ResponseCache :: clamp_positive_ttls :: "let (positive_min_ttl, positive_max_ttl) = self" .. ".clamp(positive_min_ttl, positive_max_ttl)"
+//%sub? "message . all_sections ( ) . filter (" => "{ let vp_c = vp_all_sections(message); let vp_f = (" # R-iter: `A.filter(F).map(G).min()` -> the collection and the two closures are let-bound (closure bodies untouched) and handed to ONE contract-specified shim
+//%sub? "message . answers . iter ( ) . filter (" => "{ let vp_c = vp_section(&message.answers); let vp_f = (" # R-iter: the same pipeline over one section (so that such a change is judged, not lost)
+//%sub? "message . authorities . iter ( ) . filter (" => "{ let vp_c = vp_section(&message.authorities); let vp_f = (" # R-iter: as above
+//%sub1 ") . map (" => "); let vp_g = (" # R-iter (same pipeline)
+//%sub1 ") . min ( )" => "); let vp_r = vp_filter_map_min(&vp_c, vp_f, vp_g); proof { lemma_pipeline(vp_c@, vp_f, vp_g, vp_r, query_type); } vp_r }" # R-iter (same pipeline) + R-ann: ghost lemma call
+//%closure "|r|"@1
+|r: &&VpRecord| -> (b: bool) ensures b == counts_for(**r, query_type)
+//%closure "|r|"@2
+|r: &VpRecord| -> (d: Duration) ensures d.ns == r.ttl as u128 * 1_000_000_000
+//%mutant cname_not_counted "|| r.record_type() == RecordType::CNAME" => ""
+//%mutant unclamped_lifetime ".clamp(positive_min_ttl, positive_max_ttl)" => ""
+//%mutant max_instead_of_query_type "r.record_type() == query_type ||" => ""
+//%end
+    }
+}
+
 } // verus!
 fn main() {}
